@@ -74,7 +74,8 @@ def gen_case(rng, tier, *, semi=False, metrics=None, force_tie_free=False, allow
     if rng.random() < 0.15:
         # history: the SAME model object is first fitted on other data of the same shape (state kept between fits would leak)
         P = gen.to_domain(gen.make_dataset(rng, n + nU, d, "G1"), kind)
-        case["prefit"] = {"X": P[:n].tolist(), "Y": gen.make_labels(rng, P[:n], "random").tolist(), "U": P[n:].tolist()}
+        case["prefit"] = {"X": P[:n].tolist(), "Y": gen.make_labels(rng, P[:n], "random").tolist(), "U": P[n:].tolist(),
+                          "inplace": bool(rng.random() < 0.5)}
     if allow_pre and rng.random() < 0.25:
         mk = gen.pick(rng, ["M1", "M2", "M3", "M4", "ONES"]) if not force_tie_free else gen.pick(rng, ["M1", "M2"])
         extra = int(rng.integers(1, 8))
@@ -133,6 +134,7 @@ def run_case(case, with_prim_hook=True, with_heap_hooks=True):
     if with_heap_hooks:
         targets += hooks.heap_targets()
     pf = case.get("prefit")
+    o.prefit = None
     if pf:
         PX, PY = np.array(pf["X"], dtype=float), np.array(pf["Y"], dtype=int)
         PU = np.array(pf["U"], dtype=float).reshape(-1, PX.shape[1]) if len(pf.get("U") or []) else np.zeros((0, PX.shape[1]))
@@ -142,11 +144,19 @@ def run_case(case, with_prim_hook=True, with_heap_hooks=True):
             o.prefit = safe_call(o.model.fit, PX, PY, None if o.I is None else o.I.copy())
         if o.prefit.ok and len(o.Q):
             safe_call(o.model.predict, o.Q.copy(), o.IQ.copy()) if o.IQ is not None else safe_call(o.model.predict, o.Q.copy())
+    fx, fy, fu = o.X.copy(), o.Y.copy(), o.U.copy()
+    if pf and pf.get("inplace") and o.prefit is not None:
+        # the SAME array objects the model was fitted on before, overwritten in place with the case's data
+        PX[:], PY[:] = o.X, o.Y
+        if PU.shape == o.U.shape:
+            PU[:] = o.U
+            fu = PU
+        fx, fy = PX, PY
     with hooks.patched(rec, targets):
         if case["model"] == "semi":
-            o.fit = safe_call(o.model.fit, o.X.copy(), o.Y.copy(), o.U.copy(), None if o.I is None else o.I.copy())
+            o.fit = safe_call(o.model.fit, fx, fy, fu, None if o.I is None else o.I.copy())
         else:
-            o.fit = safe_call(o.model.fit, o.X.copy(), o.Y.copy(), None if o.I is None else o.I.copy())
+            o.fit = safe_call(o.model.fit, fx, fy, None if o.I is None else o.I.copy())
     prim = rec.of("prim")
     o.prim = prim[-1] if prim else None
     o.hook_missing = list(rec.missing)
